@@ -339,6 +339,13 @@ pub fn end_execution() -> EndReport {
             }
             if b.live {
                 rep.leaked.push((b.size, b.align));
+                // Returned to the system as well (a leak in every execution of a long exploration
+                // would otherwise exhaust memory); the header is marked freed so that a stray later
+                // free of this block is still recognised as a double free in most cases.
+                let mut h = core::ptr::read_unaligned(p.sub(HDR) as *const Header);
+                h.magic = MAGIC_FREED;
+                core::ptr::write_unaligned(p.sub(HDR) as *mut Header, h);
+                System.dealloc(b.base as *mut u8, Layout::from_size_align_unchecked(b.total, b.balign));
             } else {
                 for k in 0..b.size {
                     if *p.add(k) != FILL_FREED {
@@ -357,6 +364,34 @@ pub fn end_execution() -> EndReport {
     }
     s.nblocks = 0;
     rep
+}
+
+/// Release the quarantine in the middle of a (long) execution: freed crate blocks are
+/// verified (poison, canary) and returned to the system; live blocks stay in the ledger.
+pub fn flush_quarantine() -> Option<String> {
+    let s = st();
+    let mut bad = None;
+    let mut k = 0;
+    for i in 0..s.nblocks {
+        let b = s.blocks[i];
+        if b.live {
+            s.blocks[k] = b;
+            k += 1;
+            continue;
+        }
+        unsafe {
+            let p = b.user as *const u8;
+            for j in 0..b.size {
+                if *p.add(j) != FILL_FREED {
+                    bad = Some(format!("write after free: byte {} of a freed block of size {} was modified", j, b.size));
+                    break;
+                }
+            }
+            System.dealloc(b.base as *mut u8, Layout::from_size_align_unchecked(b.total, b.balign));
+        }
+    }
+    s.nblocks = k;
+    bad
 }
 
 #[inline]
